@@ -4,6 +4,7 @@ import (
 	"context"
 	"errors"
 	"fmt"
+	"github.com/cloudwego/hertz/pkg/common/config"
 	"io"
 	"os"
 	"reflect"
@@ -234,7 +235,7 @@ var fieldMutators = map[string]func(ctx *app.RequestContext){
 	"Keys[k]=v":                          func(ctx *app.RequestContext) { ctx.Keys = map[string]interface{}{"k": "v"} },
 	"Params=append":                      func(ctx *app.RequestContext) { ctx.Params = append(ctx.Params, ctx.Params...) },
 	"URI.DisablePathNormalizing=true":    func(ctx *app.RequestContext) { ctx.Request.URI().DisablePathNormalizing = true },
-	"Error(err)":                         func(ctx *app.RequestContext) { ctx.Error(errors.New("handler error")) }, //nolint:errcheck
+	"Error(err)":                         func(ctx *app.RequestContext) { ctx.Error(errors.New("handler error")) },             //nolint:errcheck
 	"AbortWithError":                     func(ctx *app.RequestContext) { ctx.AbortWithError(500, errors.New("abort error")) }, //nolint:errcheck
 }
 
@@ -413,7 +414,19 @@ type rig struct {
 	dumpProb []string
 }
 
-func newRig() *rig {
+// server configurations: per-engine settings are applied to every request of a connection, so a
+// recycled context must behave under them exactly like a fresh one
+var rigConfigs = [][]config.Option{
+	nil,
+	{server.WithDisableDefaultDate(true), server.WithDisableDefaultContentType(true)},
+	{server.WithDisableHeaderNamesNormalizing(true), server.WithRemoveExtraSlash(true), server.WithUnescapePathValues(false), server.WithUseRawPath(true)},
+}
+
+func newRig(cfgs ...int) *rig {
+	cfg := 0
+	if len(cfgs) > 0 {
+		cfg = cfgs[0]
+	}
 	r := &rig{}
 	r.s = sconn.NewServer(func(h *server.Hertz) {
 		h.Use(recovery.Recovery())
@@ -440,7 +453,7 @@ func newRig() *rig {
 		}
 		h.Any("/probe", probe)
 		h.NoRoute(probe) // a probe that the router does not match: FullPath and Params are not rewritten for it
-	})
+	}, rigConfigs[cfg]...)
 	return r
 }
 
@@ -457,6 +470,8 @@ var probeReqs = []string{
 	// keys without '=' and empty values in every position: a recycled key/value slot must not lend them its old value
 	"POST /probe?flag&pq=&other&last HTTP/1.1\r\nHost: probe.example\r\nX-Probe: 1\r\nCookie: bare; pc=; pd\r\nX-Empty:\r\nContent-Type: application/x-www-form-urlencoded\r\nContent-Length: 12\r\n\r\npf&pg=&ph&pi",
 }
+
+var sharedRigs = map[int]*rig{}
 
 var (
 	shared     *rig
@@ -497,22 +512,24 @@ func initFresh(t testing.TB) {
 	if len(freshDump) > 0 {
 		return
 	}
-	for pi, pq := range probeReqs {
-		r := newRig()
-		res := r.s.Serve(sconn.New([][]byte{[]byte(pq)}, sconn.EOF))
-		if r.dumpProb == nil {
-			t.Fatalf("fresh probe did not run: %q", res.Output)
+	for cfg := range rigConfigs {
+		for pi, pq := range probeReqs {
+			r := newRig(cfg)
+			res := r.s.Serve(sconn.New([][]byte{[]byte(pq)}, sconn.EOF))
+			if r.dumpProb == nil {
+				t.Fatalf("fresh probe did not run: %q", res.Output)
+			}
+			freshDump[cfg*100+pi] = r.dumpProb
+			freshResp[cfg*100+pi] = masked(res.Output)
+			r.s.Close()
 		}
-		freshDump[pi] = r.dumpProb
-		freshResp[pi] = masked(res.Output)
-		r.s.Close()
-	}
-	// the dump of a fresh context serving each dirty request with an empty program (to tell whether a program changed anything)
-	for di, dq := range dirtyReqs {
-		r2 := newRig()
-		r2.s.Serve(sconn.New([][]byte{[]byte(dq)}, sconn.EOF))
-		freshDirty[di] = r2.dumpDirt
-		r2.s.Close()
+		// the dump of a fresh context serving each dirty request with an empty program (to tell whether a program changed anything)
+		for di, dq := range dirtyReqs {
+			r2 := newRig(cfg)
+			r2.s.Serve(sconn.New([][]byte{[]byte(dq)}, sconn.EOF))
+			freshDirty[cfg*100+di] = r2.dumpDirt
+			r2.s.Close()
+		}
 	}
 }
 
@@ -548,9 +565,11 @@ func TestC09Context(t *testing.T) {
 	rec := ev.New("context")
 	initFresh(t)
 	rapid.Check(t, func(t *rapid.T) {
-		if shared == nil {
-			shared = newRig()
+		cfg := rapid.IntRange(0, len(rigConfigs)-1).Draw(t, "serverConfig")
+		if sharedRigs[cfg] == nil {
+			sharedRigs[cfg] = newRig(cfg)
 		}
+		shared = sharedRigs[cfg]
 		r := shared
 		r.prog = genProgram(t)
 		r.ending = rapid.IntRange(0, 4).Draw(t, "ending")
@@ -572,12 +591,13 @@ func TestC09Context(t *testing.T) {
 		}
 		if res.Panic != nil {
 			shared = nil
+			sharedRigs[cfg] = nil
 			t.Fatalf("panic escaped: %v\n%s", res.Panic, res.Stack)
 		}
 		c := &Case{Program: r.prog, Ending: endings[r.ending], Shape: shape, Dirty: dirtyReq, Probe: probeReq}
-		changed := strings.Join(r.dumpDirt, "\n") != strings.Join(freshDirty[di], "\n")
+		changed := strings.Join(r.dumpDirt, "\n") != strings.Join(freshDirty[cfg*100+di], "\n")
 		reused := r.probePtr != nil && r.probePtr == r.dirtyPtr
-		cls := []string{"shape-" + shape, "ending-" + endings[r.ending], fmt.Sprintf("dirty-request-%d", di), fmt.Sprintf("probe-%d", pi)}
+		cls := []string{fmt.Sprintf("server-config-%d", cfg), "shape-" + shape, "ending-" + endings[r.ending], fmt.Sprintf("dirty-request-%d", di), fmt.Sprintf("probe-%d", pi)}
 		if r.dumpProb == nil {
 			cls = append(cls, "probe-not-served")
 		}
@@ -600,7 +620,7 @@ func TestC09Context(t *testing.T) {
 			}
 			return
 		}
-		if d := diffDumps(r.dumpProb, freshDump[pi]); d != "" {
+		if d := diffDumps(r.dumpProb, freshDump[cfg*100+pi]); d != "" {
 			t.Fatalf("state observed by the probe request on a recycled context differs from a fresh context (%s, ending %s):%s\nprogram: %+v", shape, endings[r.ending], d, r.prog)
 		}
 		var got []byte
@@ -612,8 +632,8 @@ func TestC09Context(t *testing.T) {
 		} else {
 			got = out
 		}
-		if string(masked(got)) != string(freshResp[pi]) {
-			t.Fatalf("probe response on a recycled context differs from a fresh one (%s):\n recycled: %q\n fresh:    %q\nprogram: %+v", shape, masked(got), freshResp[pi], r.prog)
+		if string(masked(got)) != string(freshResp[cfg*100+pi]) {
+			t.Fatalf("probe response on a recycled context differs from a fresh one (%s):\n recycled: %q\n fresh:    %q\nprogram: %+v", shape, masked(got), freshResp[cfg*100+pi], r.prog)
 		}
 		if changed && reused && rec.WantSample() {
 			rec.Sample(c)
